@@ -42,7 +42,7 @@ Splice(q, at, v, fill) ==
         post == Drop(q, at + Len(v))
     IN pre \o v \o post
 
-NewContent == [val |-> <<>>, kt |-> <<>>, gen |-> 0, hdrN |-> -1]
+NewContent == [val |-> <<>>, kt |-> <<>>, gen |-> 0, hdrN |-> -1, info |-> <<>>]
 
 Items(s, c) == IF c.unit = "f" THEN c.n * s.ch ELSE c.n
 RetItems(s, c, o) == IF c.unit = "f" THEN o.ret * s.ch ELSE o.ret
@@ -328,9 +328,10 @@ FramesAfterClose(fmt, ch, B, N, F) ==
 \* (an encoder may also flush its partial block when the header is updated -- SDS does -- and report every frame)
 FramesInImage(B, hdrN, F) == F = (hdrN \div B) * B \/ F = hdrN
 
-InfoMatches(fmt, ch, rate, info) ==
+InfoMatchesX(fmt, ch, rate, info, anyrate) ==
     /\ info.ch = ch
     /\ Major(info.fmt) = Major(fmt) /\ Sub(info.fmt) = Sub(fmt)
     /\ MultiByte(Sub(fmt)) => EffOrder(info.fmt) = EffOrder(fmt)      \* byte order where the container records it
-    /\ ExactRate(fmt) => info.rate = rate
+    /\ (ExactRate(fmt) /\ ~anyrate) => info.rate = rate
+InfoMatches(fmt, ch, rate, info) == InfoMatchesX(fmt, ch, rate, info, FALSE)
 =============================================================================
